@@ -6,6 +6,7 @@ package main
 // (groupBatchItemsByPartition) against the model's owner / group.
 
 import (
+	"context"
 	"encoding/hex"
 	"fmt"
 	"sort"
@@ -188,6 +189,82 @@ func runRouting(c *Ctx) {
 				}
 			}
 		}
+		c.End()
+	}
+	routingAcrossRestart(c, rng, ids)
+}
+
+// routingAcrossRestart: "every node and every restart computes the same owner". Routing is
+// positional (the owner is the partition at index UuidMod(id, count) of the dataset's partition
+// list), so the owner *partition* of an id must be the same on the node that created the dataset,
+// on a node that replays the catalogue log, and on a node that builds its catalogue from a
+// catalogue snapshot (restart, or a lagging member caught up by the leader's snapshot).
+func routingAcrossRestart(c *Ctx, rng *Rng, edge []uuid.UUID) {
+	counts := []uint32{2, 3, 8}
+	if c.Thorough() {
+		counts = []uint32{2, 3, 4, 5, 8, 13, 16, 32}
+	}
+	for _, P := range counts {
+		c.Begin(fmt.Sprintf("owner across restart P=%d", P))
+		r := rng.Fork()
+		cl := newSimCluster(1)
+		ctx := context.Background()
+		ds, err := cl.nodes[1].node.DatasetManager.Create(ctx, &pb.Dataset{Dimension: 2, Space: pb.Space_Euclidean, PartitionCount: P, ReplicationFactor: 1})
+		if err != nil {
+			c.Note("create failed: %v", err)
+			cl.Close()
+			c.End()
+			continue
+		}
+		// a second dataset, so that the snapshot holds more than one
+		cl.nodes[1].node.DatasetManager.Create(ctx, &pb.Dataset{Dimension: 2, Space: pb.Space_Euclidean, PartitionCount: 1 + uint32(r.Intn(4)), ReplicationFactor: 1})
+		c.OpLocal("create a dataset with %d partitions on node A; B = fresh node replaying the catalogue log; C = fresh node restoring A's catalogue snapshot", P)
+		snap, err := cl.nodes[1].group.snapFn()
+		if err != nil {
+			c.Violate("C10", "C10/catalogue-snapshot-fails", err.Error(), c.History())
+		}
+		cl.cat.mu.Lock()
+		log := append([][]byte{}, cl.cat.log...)
+		cl.cat.mu.Unlock()
+		replayed := newSimCluster(1)
+		for _, e := range log {
+			replayed.nodes[1].group.processFn(e)
+		}
+		restored := newSimCluster(1)
+		if err := restored.nodes[1].group.restoreFn(snap); err != nil {
+			c.Violate("C10", "C10/catalogue-restore-fails", err.Error(), c.History())
+		}
+		owner := func(cl *simCluster, id uuid.UUID) string {
+			d := cl.dataset(1, ds.VerifId())
+			if d == nil {
+				return "no-dataset"
+			}
+			return d.VerifPartitionIds()[d.VerifOwnerIndex(id)].String()
+		}
+		all := append([]uuid.UUID{}, edge...)
+		for i := 0; i < c.Pick(200, 2000); i++ {
+			var u uuid.UUID
+			for j := range u {
+				u[j] = byte(r.U64())
+			}
+			all = append(all, u)
+		}
+		moved := 0
+		for _, id := range all {
+			a, b, s := owner(cl, id), owner(replayed, id), owner(restored, id)
+			if a != b || a != s {
+				moved++
+				if moved == 1 {
+					c.Violate("C10", "C10/owner-differs-after-restart", fmt.Sprintf("P=%d: id %s is owned by partition %s on the node that created the dataset, by %s on a node that replayed the catalogue log and by %s on a node restored from the catalogue snapshot", P, id, a, b, s), map[string]interface{}{"id": id.String(), "partitions": P, "history": c.History()})
+				}
+			}
+			c.Stats.Evaluations++
+		}
+		c.OpLocal("%d ids: owner partition compared on A, B and C (%d differ)", len(all), moved)
+		c.Nontrivial("owner-across-restart")
+		restored.Close()
+		replayed.Close()
+		cl.Close()
 		c.End()
 	}
 }
